@@ -349,6 +349,10 @@ func (t *decTr) stmt(s ast.Stmt) string {
 			t.inGo = false
 			return "DRange " + q("go") + " " + q("once") + " " + body
 		}
+		// go f(args): a named function started as a goroutine: one effect
+		if _, isLit := x.Call.Fun.(*ast.FuncLit); !isLit {
+			return "DCall " + q("go "+t.render(x.Call))
+		}
 	case *ast.DeferStmt:
 		// defer f(...): recorded where it is registered
 		return "DCall " + q("defer "+t.render(x.Call))
